@@ -1,6 +1,7 @@
 INIT BInit
 NEXT BNext
 CONSTANTS MaxDepth = 0
+ LeafMode = "plain"
  WithPairs = FALSE
 INVARIANT Emit
 CHECK_DEADLOCK FALSE
